@@ -12,9 +12,10 @@ package _interface
 //@ interface (LimitStore).Save(s, cluster, condition) props C13, C19
 //@   modifies storeops, localsaves, localsaved[condition.Name]
 //@   ensures storeops == old(storeops) + 1 && localsaves == old(localsaves) + 1 && localsaved[condition.Name] == condition.Spec.UpstreamCluster
-//@ interface (LimitStore).Delete(s, cluster, name) props C13, C19
-//@   modifies storeops, localdeletes
+//@ interface (LimitStore).Delete(s, cluster, name) props C13, C19, C18
+//@   modifies storeops, localdeletes, conddeleted[s]
 //@   ensures storeops == old(storeops) + 1 && localdeletes == old(localdeletes) + 1
+//@   ensures forall n string :: {n in conddeleted[s]} (n in conddeleted[s]) <==> old(n in conddeleted[s]) || n == name
 //@ interface (LimitStore).DeleteUpstream(s, cluster) props C13, C19
 //@   modifies storeops, localdeletes
 //@   ensures storeops == old(storeops) + 1 && localdeletes == old(localdeletes) + 1
@@ -30,9 +31,10 @@ package _interface
 //@ interface (LimitStore).SyncFlowControl(s, cluster, fc) props C13, C19
 //@   modifies storeops
 //@   ensures storeops == old(storeops) + 1
-//@ interface (LimitStore).DeleteInstanceState(s, instance) props C13, C19
-//@   modifies storeops
+//@ interface (LimitStore).DeleteInstanceState(s, instance) props C13, C19, C18
+//@   modifies storeops, instcleared[s]
 //@   ensures storeops == old(storeops) + 1
+//@   ensures forall i string :: {i in instcleared[s]} (i in instcleared[s]) <==> old(i in instcleared[s]) || i == instance
 //@ interface (LimitStore).Load(s) props C13, C19
 //@   modifies storeops
 //@   ensures storeops == old(storeops) + 1
